@@ -57,6 +57,21 @@ impl World {
         World { rt, ctx, raw, tables, mem }
     }
 
+    /// development aid: run a SQL text through the NORMAL context (full optimizer) on the given data
+    pub fn run_sql_normally(&self, sql: &str, data: &[(String, Vec<Vec<Option<i128>>>)]) -> Result<Vec<String>, String> {
+        self.set_data(data);
+        let r = self.rt.block_on(async {
+            let df = self.ctx.sql(sql).await.map_err(|e| format!("plan: {e}"))?;
+            let batches = df.collect().await.map_err(|e| format!("exec: {e}"))?;
+            if sql.starts_with("EXPLAIN") {
+                return Ok(vec![pretty_format_batches(&batches).map_err(|e| e.to_string())?.to_string()]);
+            }
+            Ok(batches.iter().map(|b| format!("{} rows", b.num_rows())).collect())
+        });
+        self.set_data(&[]);
+        r
+    }
+
     /// SQL -> (analyzed plan, state)
     pub fn analyzed(&self, sql: &str) -> Result<LogicalPlan, String> {
         let state = self.ctx.state();
@@ -159,6 +174,11 @@ pub fn plans_equivalent(duo: &mut Duo, w: &World, nrows: usize, p1: &LogicalPlan
                 Verdict::Unsat => Outcome::Equivalent,
                 Verdict::Unknown => Outcome::Inconclusive("solver undecided (timeout, error or disagreement)".into()),
                 Verdict::Sat => {
+                  // A model on which BOTH plans fail in the real engine (an internal error of physical planning, seen with empty
+                  // tables) cannot confirm anything: block that database shape (its row-presence flags) and ask for another model.
+                  let mut attempt = 0;
+                  loop {
+                    attempt += 1;
                     // read the database back
                     let mut names = vec![];
                     for (_, rows) in &pe.table_cells {
@@ -191,7 +211,27 @@ pub fn plans_equivalent(duo: &mut Duo, w: &World, nrows: usize, p1: &LogicalPlan
                         }
                         data.push((t.clone(), trows));
                     }
-                    replay(w, p1, p2, &data)
+                    let out = replay(w, p1, p2, &data);
+                    let both_fail = matches!(&out, Outcome::Inconclusive(m) if m.starts_with("both plans fail"));
+                    if !both_fail {
+                        break out;
+                    }
+                    if attempt >= 4 {
+                        break Outcome::Inconclusive("solver undecided: four counter-models in a row are databases on which both plans fail in the real engine; not claimed".into());
+                    }
+                    let mut flags = vec![];
+                    for (_, rows) in &pe.table_cells {
+                        for (p, _) in rows {
+                            flags.push(if get(p) == "true" { p.clone() } else { format!("(not {p})") });
+                        }
+                    }
+                    duo.send(&format!("(assert (not (and {})))\n", flags.join(" ")));
+                    match duo.check() {
+                        Verdict::Sat => {}
+                        Verdict::Unsat => break Outcome::Inconclusive("solver undecided: the plans differ only on databases on which both fail in the real engine (outside the property's precondition); not claimed".into()),
+                        Verdict::Unknown => break Outcome::Inconclusive("solver undecided (timeout, error or disagreement)".into()),
+                    }
+                  }
                 }
             }
         }
@@ -222,6 +262,7 @@ pub fn replay(w: &World, p1: &LogicalPlan, p2: &LogicalPlan, data: &[(String, Ve
         "original_value": format!("{r1:?}"), "rewritten_value": format!("{r2:?}")});
     match (&r1, &r2) {
         (Ok(a), Ok(b)) if a != b => Outcome::Violation(info),
+        (Err(_), Err(_)) => Outcome::Inconclusive(format!("both plans fail at execution on the model database: {info}")),
         (Ok(_), Err(_)) | (Err(_), Ok(_)) => Outcome::Inconclusive(format!("one plan fails at execution on the model database (outside the property's precondition): {info}")),
         _ => Outcome::Inconclusive(format!("solver model did not reproduce in the real engine (encoder and engine disagree): {info}")),
     }
